@@ -9,6 +9,7 @@
 package pipesim
 
 import (
+	"bytes"
 	"context"
 	"crypto/sha256"
 	"encoding/hex"
@@ -968,6 +969,11 @@ func Run(t *testing.T, cfg harness.Config, idx int, tp *tape.Tape) (res harness.
 			parts = append(parts, e.out.Hash)
 		}
 		res.DetKey = fmt.Sprintf("mode%d %s", mode, strings.Join(parts, " "))
+	}
+	for _, sp := range specs {
+		if sp.Render && sp.Sketch && bytes.Contains(sp.Script, []byte("shape: circle; style.filled: true")) {
+			res.Probe("sketch_spec_with_a_filled_circle_arrowhead")
+		}
 	}
 	res.Evals = len(execs) + len(specs)
 	res.Nontrivial = len(execs) >= 2
